@@ -65,6 +65,19 @@ def corpus():
     out.append(("bom", "﻿const uint8 A = 1;\n"))
     out.append(("nul", "const uint8 A = 1;\x00\n"))
     out.append(("deep_nest", "".join("struct N%d { %s a; };\n" % (i, "uint8" if i == 0 else "N%d" % (i - 1)) for i in range(64))))
+    # every single-base inheritance graph over three interfaces (none / self / either other as
+    # base): chains, rings, and tails that lead into a ring must all terminate
+    names = ["IA", "IB", "IC"]
+    import itertools
+    for bases in itertools.product([None, 0, 1, 2], repeat=3):
+        txt = "".join("interface %s%s { method m%d(); };\n" % (names[i], (" : " + names[b]) if b is not None else "", i) for i, b in enumerate(bases))
+        out.append(("inherit_graph_%s" % "".join("n" if b is None else str(b) for b in bases), txt))
+    # containment graphs over three structs (a field of every other struct in the chosen set)
+    sn = ["SA", "SB", "SC"]
+    for mask in range(0, 512, 7):
+        rows = [[j for j in range(3) if mask >> (3 * i + j) & 1] for i in range(3)]
+        txt = "".join("struct %s { uint64 x; %s};\n" % (sn[i], "".join("%s f%d; " % (sn[j], j) for j in rows[i])) for i in range(3))
+        out.append(("contain_graph_%03d" % mask, txt + "interface IU { method f(in SA a); };\n"))
     return out
 
 
